@@ -288,12 +288,12 @@ pub fn layer1_cases(tier: Tier, seed: u64) -> Vec<Case> {
             fam.push(("u".repeat(l), "p".repeat(17 - l)));
             fam.push((format!("{}7", "n".repeat(l - 1)), format!("{}9", "w".repeat((l + 4) % 16))));
         }
-        for (u, p) in [("bob", "bobbob"), ("bob", "xbobx"), ("a  b", "c  d"), ("  ", "   "), ("x", "x x x x x x x x"), ("Zz9", "Zz9!"), ("tab~", "`til`"), ("....", ",,,,"), ("user", "USER"), ("P", "u:P"), ("u:", "P"), ("0", "0"), ("00", "0"), ("1234567890123456", "1234567890123456")] {
+        for (u, p) in [("bob", "bobbob"), ("bob", "xbobx"), ("a  b", "c  d"), ("  ", "   "), ("x", "x x x x x x x x"), ("Zz9", "Zz9!"), ("tab~", "`til`"), ("....", ",,,,"), ("user", "USER"), ("P", "u:P"), ("u:", "P"), ("0", "0"), ("00", "0"), ("1234567890123456", "1234567890123456"), ("bob ", "correct horse "), (" lead", " lead"), ("both ", " both ")] {
             fam.push((u.to_string(), p.to_string()));
         }
         let step = if full { 1 } else { 3 };
         for (i, (u, p)) in fam.iter().enumerate() {
-            if i % step != 0 && !u.contains("  ") {
+            if i % step != 0 && !u.contains("  ") && !u.starts_with(' ') && !u.ends_with(' ') {
                 continue; // (credentials with blank runs are always kept: normalisation shortcuts show there)
             }
             for (si, s) in ss.iter().enumerate() {
@@ -411,7 +411,7 @@ pub fn run(o: Oracle, tier: Tier, seed: u64) -> i32 {
             "B_minus_kv_nonnegative": cl.base_nonnegative.load(Ordering::Relaxed),
         }),
     );
-    if cl.s_low_zero[1].load(Ordering::Relaxed) == 0 || cl.s_low_zero[2].load(Ordering::Relaxed) == 0 || cl.s_low_zero[3].load(Ordering::Relaxed) == 0 || cl.base_negative.load(Ordering::Relaxed) == 0 {
+    if report.violation_count() == 0 && (cl.s_low_zero[1].load(Ordering::Relaxed) == 0 || cl.s_low_zero[2].load(Ordering::Relaxed) == 0 || cl.s_low_zero[3].load(Ordering::Relaxed) == 0 || cl.base_negative.load(Ordering::Relaxed) == 0) {
         mc::util::machinery_error("a promised rare class (S with 1/2/3 low zero bytes, negative base) was reached 0 times");
     }
 
@@ -489,15 +489,37 @@ fn login_sequences(report: &Report, o: Oracle, cl: &Classes, tier: Tier, seed: u
     alphabet.push(Step::Group { g: 7, modulus: 4 });
     let len = tier.pick(2usize, 3usize);
     let n = alphabet.len();
-    let total = n.pow(len as u32);
     let mods = moduli();
-    (0..total).into_par_iter().for_each(|idx| {
-        let mut rest = idx;
+    let total = n.pow(len as u32);
+    let mut seqs: Vec<Vec<Step>> = (0..total)
+        .map(|idx| {
+            let mut rest = idx;
+            let mut seq = vec![];
+            for _ in 0..len {
+                seq.push(alphabet[rest % n].clone());
+                rest /= n;
+            }
+            seq
+        })
+        .collect();
+    // long sequences on one thread: hundreds of DIFFERENT accounts, salts and announced groups back to back, so that any
+    // per-thread or global memo with a capacity (16 / 64 / 256 entries), or one keyed on part of its inputs, is overrun
+    for (variant, steps) in [(0usize, tier.pick(400usize, 3000usize)), (1, tier.pick(300, 1500))] {
         let mut seq = vec![];
-        for _ in 0..len {
-            seq.push(alphabet[rest % n].clone());
-            rest /= n;
+        for i in 0..steps {
+            let acct = if variant == 0 { i % 301 } else { (i * 7) % 67 };
+            let user: &'static str = Box::leak(format!("u{acct}").into_boxed_str());
+            let pass: &'static str = Box::leak(format!("p{}x", acct % 13).into_boxed_str());
+            if i % 5 == 3 {
+                seq.push(Step::Group { g: [7u8, 3, 2, 7, 255, 5][i % 6], modulus: (i / 5) % mods.len() });
+            } else {
+                seq.push(Step::Builtin { user, pass, salt: (i % 251) as u8 });
+            }
         }
+        seqs.push(seq);
+    }
+    let total = seqs.iter().map(|s| s.len()).sum::<usize>();
+    seqs.par_iter().enumerate().for_each(|(idx, seq)| {
         for (pos, step) in seq.iter().enumerate() {
             let tag = format!("seq-{idx}-{pos}");
             match step {
@@ -515,7 +537,7 @@ fn login_sequences(report: &Report, o: Oracle, cl: &Classes, tier: Tier, seed: u
                     let before = report.violation_count();
                     run_case(report, o, cl, &case, false, false);
                     if report.violation_count() != before {
-                        report.sample("failing-login-sequence", json!({"sequence_index": idx, "position": pos, "steps": seq.iter().map(step_json).collect::<Vec<_>>()}));
+                        report.sample("failing-login-sequence", json!({"sequence_index": idx, "position": pos, "steps": seq.iter().take(pos + 1).skip(pos.saturating_sub(12)).map(step_json).collect::<Vec<_>>(), "steps_shown": "the last (up to) 13 steps up to the failing one"}));
                         return;
                     }
                 }
@@ -529,6 +551,9 @@ fn login_sequences(report: &Report, o: Oracle, cl: &Classes, tier: Tier, seed: u
                         Ok(k) => k,
                         Err(_) => continue, // a valid key refused is C04's business; this step only perturbs per-thread state
                     };
+                    if srp::client_public(&refmodel::big::U::from_le_bytes(&a), *g, m).is_zero() {
+                        continue; // A = g^a mod N' is 0 for this announced group (e.g. g a multiple of a tiny N'): the documented refusal, C04's business
+                    }
                     let (r, _, _) = with_script(&a, || {
                         let c = SrpClientChallenge::new(ns("alice"), ns("password1"), *g, m_le, bk, salt);
                         (*c.client_public_key(), *c.client_proof())
@@ -547,7 +572,7 @@ fn login_sequences(report: &Report, o: Oracle, cl: &Classes, tier: Tier, seed: u
                                         report.violation(Violation {
                                             signature: "C03|login-sequence|announced-group-client-values".into(),
                                             scenario: "login-sequence".into(),
-                                            replay: json!({"sequence_index": idx, "position": pos, "steps": seq.iter().map(step_json).collect::<Vec<_>>(), "seed": seed}),
+                                            replay: json!({"sequence_index": idx, "position": pos, "steps": seq.iter().take(pos + 1).skip(pos.saturating_sub(12)).map(step_json).collect::<Vec<_>>(), "steps_shown": "the last (up to) 13 steps up to the failing one", "seed": seed}),
                                             detail: json!({"message": format!("after the preceding logins on this thread the client's values for g={g}, modulus {mname} are A={} M1={}, reference A={} M1={}", hex(ap), hex(m1), hex(&want_a), hex(&want_m1))}),
                                         });
                                         return;
@@ -557,7 +582,7 @@ fn login_sequences(report: &Report, o: Oracle, cl: &Classes, tier: Tier, seed: u
                                     report.violation(Violation {
                                         signature: "C03|login-sequence|announced-group-panic".into(),
                                         scenario: "login-sequence".into(),
-                                        replay: json!({"sequence_index": idx, "position": pos, "steps": seq.iter().map(step_json).collect::<Vec<_>>()}),
+                                        replay: json!({"sequence_index": idx, "position": pos, "steps": seq.iter().take(pos + 1).skip(pos.saturating_sub(12)).map(step_json).collect::<Vec<_>>(), "steps_shown": "the last (up to) 13 steps up to the failing one"}),
                                         detail: json!({"message": format!("client panicked: {m}")}),
                                     });
                                     return;
